@@ -71,6 +71,13 @@ bool read_file(const std::string& p, std::string& out) {
   return true;
 }
 
+// insert (chunk, digest) into HashQueue's container of finished chunks whatever its type is (associative or sequence)
+template <class C, class K, class V>
+void done_put(C& c, K k, const V& v) {
+  if constexpr (requires { c.emplace_back(k, v); }) c.emplace_back(k, v);
+  else c.insert_or_assign(k, v);
+}
+
 struct Case {
   Session& S;
   std::unique_ptr<Torrent> T;
@@ -103,7 +110,7 @@ struct Case {
       {
         std::scoped_lock l(hq()->m_done_chunks_lock);
         for (auto it = hq()->m_done_chunks.begin(); it != hq()->m_done_chunks.end();) {
-          stash[it->first->handle().index()] = *it;
+          stash[it->first->handle().index()] = std::make_pair(it->first, it->second);
           it = hq()->m_done_chunks.erase(it);
         }
       }
@@ -117,12 +124,12 @@ struct Case {
     auto it = stash.find(piece);
     if (it == stash.end()) return;
     std::scoped_lock l(hq()->m_done_chunks_lock);
-    hq()->m_done_chunks[it->second.first] = it->second.second;
+    done_put(hq()->m_done_chunks, it->second.first, it->second.second);
     stash.erase(it);
   }
   void put_back_all() {
     std::scoped_lock l(hq()->m_done_chunks_lock);
-    for (auto& e : stash) hq()->m_done_chunks[e.second.first] = e.second.second;
+    for (auto& e : stash) done_put(hq()->m_done_chunks, e.second.first, e.second.second);
     stash.clear();
   }
 
@@ -443,6 +450,81 @@ std::string run_case(Session& S, const std::string& line, uint32_t serial) {
 
 }  // namespace
 
+// ------------------------------------------------------------------------------------------
+// G case:  G <seed> <variant 1|2>      a torrent larger than 4 GiB, 1 MiB pieces, almost nothing of it on disk
+//   a (4 GiB described, only its first 4 MiB on disk) | b (2 MiB, valid) | c (2 MiB, MISSING); variant 2: a | c | b.
+//   c's described content equals a's bytes at (c's offset mod 2^32), so a piece offset computed in 32 bits would find
+//   "c" inside a.  Expected: exactly a's first four pieces and b's two pieces.  Only ~6 MiB are hashed.
+// Output: G set=<indices reported present> || expect=<indices valid on disk> atclose=<leak snapshot>   (oracle only, no model)
+static std::string run_giant(Session& S, const std::string& line, uint32_t serial) {
+  auto tk = split_ws(line);
+  if (tk.size() != 3) return "BADCASE";
+  uint32_t seed = (uint32_t)std::stoul(tk[1]);
+  int variant = std::stoi(tk[2]);
+  const uint64_t MiB = 1 << 20, pl = MiB, alen = 4096 * MiB, ahead = 4 * MiB, blen = 2 * MiB, clen = 2 * MiB;
+  std::string a(ahead, '\0'), b(blen, '\0');
+  for (uint64_t g = 0; g < ahead; g++) a[g] = (char)content_byte(seed, g);
+  for (uint64_t g = 0; g < blen; g++) b[g] = (char)content_byte(seed + 77, g);
+  uint64_t c_off = variant == 1 ? alen + blen : alen;
+  std::string c = a.substr((size_t)(c_off & 0xffffffffull), clen);
+  struct F { std::string name; uint64_t len; };
+  std::vector<F> files = variant == 1 ? std::vector<F>{{"a", alen}, {"b", blen}, {"c", clen}}
+                                      : std::vector<F>{{"a", alen}, {"c", clen}, {"b", blen}};
+  uint32_t np = (uint32_t)((alen + blen + clen) / pl);
+  std::string pieces;
+  pieces.reserve((size_t)np * 20);
+  std::vector<uint32_t> expect;
+  uint64_t off = 0;
+  for (auto& f : files) {
+    for (uint64_t p = 0; p < f.len / pl; p++) {
+      unsigned char md[20];
+      uint32_t idx = (uint32_t)((off + p * pl) / pl);
+      const std::string* src = f.name == "a" ? (p < ahead / pl ? &a : nullptr) : f.name == "b" ? &b : &c;
+      if (src != nullptr) SHA1((const unsigned char*)src->data() + p * pl, pl, md);
+      else { std::string junk = "undescribed" + std::to_string(idx); SHA1((const unsigned char*)junk.data(), junk.size(), md); }
+      pieces.append((const char*)md, 20);
+      if ((f.name == "a" && p < ahead / pl) || f.name == "b") expect.push_back(idx);
+    }
+    off += f.len;
+  }
+  std::string info = "d5:filesl";
+  for (auto& f : files) info += "d6:lengthi" + std::to_string(f.len) + "e4:pathl1:" + f.name + "ee";
+  info += "e4:name1:t12:piece lengthi" + std::to_string(pl) + "e6:pieces" + std::to_string(pieces.size()) + ":" + pieces + "7:privatei1ee";
+  std::string base = S.scratch() + "/g" + std::to_string(serial), root = base + "/t";
+  fs::create_directories(root);
+  std::ofstream(root + "/a", std::ios::binary).write(a.data(), (std::streamsize)a.size());
+  std::ofstream(root + "/b", std::ios::binary).write(b.data(), (std::streamsize)b.size());
+  torrent::Download d;
+  try {
+    d = S.add_raw("d4:info" + info + "e");
+  } catch (torrent::base_error& e) {
+    return std::string("REJECT ") + e.what();
+  }
+  d.file_list()->set_root_dir(root);
+  d.open(0);
+  d.hash_check(false);
+  if (!S.settle([d]() { return d.is_hash_checked() || !d.info()->is_open(); }, 25000)) return "HANG giant check did not finish";
+  std::string set;
+  const torrent::Bitfield* bf = d.file_list()->bitfield();
+  if (!bf->empty())
+    for (uint32_t i = 0; i < bf->size_bits(); i++) if (bf->get(i)) set += (set.empty() ? "" : ",") + std::to_string(i);
+  std::string exp;
+  for (uint32_t i : expect) exp += (exp.empty() ? "" : ",") + std::to_string(i);
+  struct stat st;
+  bool c_created = ::stat((root + "/c").c_str(), &st) == 0;
+  uint64_t a_size = ::stat((root + "/a").c_str(), &st) == 0 ? (uint64_t)st.st_size : 0;
+  d.close(0);
+  S.step();
+  std::ostringstream o;
+  o << "G set=" << (set.empty() ? "-" : set) << " || expect=" << exp << " a_size=" << a_size << " c_exists=" << c_created
+    << " mb=" << torrent::runtime::memory_manager()->memory_block_count() << " mu=" << torrent::runtime::memory_manager()->memory_usage();
+  torrent::download_remove(d);
+  S.step();
+  std::error_code ec;
+  fs::remove_all(base, ec);
+  return o.str();
+}
+
 static int worker_main() {
   std_setup();
   std::unique_ptr<Session> S;
@@ -451,7 +533,8 @@ static int worker_main() {
   while (std::getline(std::cin, line)) {
     try {
       if (!S) S = std::make_unique<Session>();
-      std::cout << run_case(*S, line, serial++) << "\n";
+      if (line.rfind("G ", 0) == 0) std::cout << run_giant(*S, line, serial++) << "\n";
+      else std::cout << run_case(*S, line, serial++) << "\n";
     } catch (torrent::internal_error& e) {
       std::cout << "ERR:internal || " << e.what() << "\n";
       std::cout.flush();
@@ -466,4 +549,63 @@ static int worker_main() {
   return 0;
 }
 
-int main(int argc, char** argv) { return ltv::supervise(argc, argv, worker_main); }
+// ------------------------------------------------------------------------------------------
+// --probe: measure on the COMPILED code what the property leaves open and the model is parametric in
+//   throttle_small      how many of 64 tiny pieces one hash_check hands to the disk thread at once
+//   start_erases_delay  whether a new hash_check discards the notification timer of an earlier failed one
+// printed as one JSON object; props/c09.py stores it for gen/params_c09.py
+static torrent::Download probe_torrent(Session& S, const std::string& tag, uint32_t pl, const std::vector<uint64_t>& lens,
+                                       int missing, int loop) {
+  TorrentSpec spec;
+  spec.name = "t";
+  spec.piece_length = pl;
+  for (size_t k = 0; k < lens.size(); k++) spec.files.push_back({"f" + std::to_string(k), lens[k]});
+  auto T = Session::make_metainfo(spec);
+  std::string root = S.scratch() + "/" + tag + "/t";
+  fs::create_directories(root);
+  uint64_t off = 0;
+  for (size_t k = 0; k < lens.size(); k++) {
+    std::string p = root + "/f" + std::to_string(k);
+    if ((int)k == loop) { if (symlink(("f" + std::to_string(k)).c_str(), p.c_str()) != 0) throw std::runtime_error("symlink"); }
+    else if ((int)k != missing) std::ofstream(p, std::ios::binary).write(T->content.data() + off, (std::streamsize)lens[k]);
+    off += lens[k];
+  }
+  torrent::Download d = S.add_raw("d4:info" + T->info_bytes + "e");
+  d.file_list()->set_root_dir(root);
+  return d;
+}
+
+static int probe_main() {
+  std_setup();
+  Session S;
+  // throttle
+  torrent::Download d = probe_torrent(S, "p1", 1025, {64 * 1025}, -1, -1);
+  d.open(0);
+  d.hash_check(false);
+  int queued_at_once = (int)d.ptr()->hash_checker()->outstanding();
+  d.hash_stop();
+  d.close(0);
+  S.step();
+  torrent::download_remove(d);
+  S.step();
+  // stale notification timer
+  torrent::Download e = probe_torrent(S, "p2", 1100, {1100, 1100}, 0, 1);
+  e.open(0);
+  e.hash_check(false);   // piece 0 missing, piece 1 cannot be opened: aborted, notification scheduled
+  bool scheduled_before = e.ptr()->hash_checker()->delay_checked().is_scheduled();
+  e.hash_check(true);
+  bool scheduled_after = e.ptr()->hash_checker()->delay_checked().is_scheduled();
+  e.hash_stop();
+  e.close(0);
+  S.step();
+  torrent::download_remove(e);
+  S.step();
+  std::cout << "{\"throttle_small\": " << queued_at_once << ", \"probe_pieces\": 64, \"start_erases_delay\": "
+            << ((scheduled_before && !scheduled_after) ? 1 : 0) << "}\n";
+  return 0;
+}
+
+int main(int argc, char** argv) {
+  if (argc > 1 && std::strcmp(argv[1], "--probe") == 0) return probe_main();
+  return ltv::supervise(argc, argv, worker_main);
+}
